@@ -1584,6 +1584,14 @@ func (s *Store) processLTXStreamFrame(ctx context.Context, frame *LTXStreamFrame
 		return fmt.Errorf("fsync ltx file: %w", err)
 	}
 
+	// Validate the received file before it becomes part of the LTX chain and
+	// before any of its pages are written to the database.
+	if _, err := f.Seek(0, io.SeekStart); err != nil {
+		return fmt.Errorf("seek ltx file: %w", err)
+	} else if err := ltx.NewDecoder(f).Verify(); err != nil {
+		return fmt.Errorf("validate ltx: %w", err)
+	}
+
 	// Atomically rename file.
 	if err := s.OS.Rename("PROCESSLTX", tmpPath, path); err != nil {
 		return fmt.Errorf("rename ltx file: %w", err)
